@@ -75,7 +75,7 @@ def dict_valid(d, require_lattice=False):
     if d.get('lattice') is not None and len(d['lattice']) == 0:
         return False
     for r in context:
-        if len(set(r)) != len(r) or any(not (0 <= i < len(properties)) for i in r):
+        if len(set(r)) != len(r) or any(not (isinstance(i, int) and 0 <= i < len(properties)) for i in r):
             return False
     return names_ok(objects, properties)
 
@@ -114,6 +114,11 @@ def name_corruptions(objects, properties):
             put('copy name %d to the other list' % i, seq, [seq[i]] + other)
         put('add a new name', seq + ['new'])
         put('all names dropped', [])
+        if seq:
+            # canonically equivalent but DISTINCT strings are distinct names (seeded C19-K: labels normalised on entry)
+            put('first name becomes a decomposed accented letter', ['e\u0301'] + seq[1:])
+            put('a precomposed and a decomposed form of one letter side by side', ['\xe9', 'e\u0301'] + seq[1:])
+            put('first name becomes the angstrom sign', ['\u212b'] + seq[1:], ['\xc5'] + other[1:])
     return out
 
 
@@ -173,11 +178,17 @@ def dict_corruptions(d):
         put('row %d: index -1 added' % i, context=row([-1] + r))
         put('row %d: index %d added' % (i, m + 5), context=row(r + [m + 5]))
         for k, j in enumerate(r):
+            if not isinstance(j, int):
+                continue        # (second-level corruption of a row that already holds a non-index entry)
             put('row %d: index %d shifted up' % (i, j), context=row(r[:k] + [j + 1] + r[k + 1:]))
             put('row %d: index %d shifted down' % (i, j), context=row(r[:k] + [j - 1] + r[k + 1:]))
             put('row %d: index %d repeated' % (i, j), context=row(r + [j]))
             put('row %d: index %d dropped' % (i, j), context=row(r[:k] + r[k + 1:]))
         put('row %d reversed' % i, context=row(list(reversed(r))))
+        # two invalid entries of types that cannot be ordered against each other in ONE row (seeded C19-L: the error message sorted them)
+        put('row %d: an out-of-range index and None added' % i, context=row(r + [m + 1, None]))
+        put('row %d: an out-of-range index and a string added' % i, context=row(r + [m + 1, '0']))
+        put('row %d: a string and None added' % i, context=row(r + ['0', None]))
     put('extra row', context=context + [[]])
     put('no rows', context=[])
     put('empty stored lattice', lattice=[])
